@@ -4,7 +4,7 @@ Front end: `clang -fsyntax-only -Xclang -ast-dump=json` on the real .c file on e
 content hash).  Accepted subset (anything else raises CUnsupported => obligation undecided):
 FunctionDecl, ParmVarDecl, CompoundStmt, DeclStmt/VarDecl, ForStmt, IfStmt, ReturnStmt, BinaryOperator,
 CompoundAssignOperator, UnaryOperator, ArraySubscriptExpr, CallExpr, DeclRefExpr, ImplicitCastExpr,
-ParenExpr, IntegerLiteral, FloatingLiteral, UnaryExprOrTypeTraitExpr (sizeof inside malloc).
+ParenExpr, IntegerLiteral, FloatingLiteral, ConditionalOperator (scalar), UnaryExprOrTypeTraitExpr (sizeof inside malloc).
 
 Semantics assumed: double = mathematical real, int = mathematical integer; distinct pointer
 parameters do not alias; malloc returns fresh storage disjoint from everything, never fails; free is a
@@ -418,6 +418,15 @@ class CExec:
             return self.call(n, st)
         if k == 'UnaryExprOrTypeTraitExpr':
             return ('sizeof',)
+        if k == 'ConditionalOperator':
+            # c ? a : b on scalar values without side effects in the branches (both are evaluated symbolically)
+            c = tobool(self.ev(n['inner'][0], st))
+            a, b = self.ev(n['inner'][1], st), self.ev(n['inner'][2], st)
+            if not (isinstance(a, (z3.ExprRef, int, float)) and isinstance(b, (z3.ExprRef, int, float))):
+                raise CUnsupported('conditional expression on non-scalar operands')
+            if (isinstance(a, z3.ExprRef) and z3.is_real(a)) or (isinstance(b, z3.ExprRef) and z3.is_real(b)) or isinstance(a, float) or isinstance(b, float):
+                a, b = toreal(a), toreal(b)
+            return ite(c, a, b)
         raise CUnsupported('expression kind %s' % k)
 
     def binop(self, op, a, b):
